@@ -27,8 +27,9 @@ HERE = os.path.dirname(os.path.abspath(__file__))
 VERIF = os.path.dirname(HERE)
 LEAN = os.path.join(VERIF, 'lean')
 sys.path.insert(0, HERE)
-if '/repo' not in sys.path:
-    sys.path.insert(0, '/repo')
+REPO = os.environ.get('VERIF_REPO', '/repo')
+if REPO not in sys.path:
+    sys.path.insert(0, REPO)
 
 ALLOWED_AXIOMS = {'propext', 'Classical.choice', 'Quot.sound'}
 FORBIDDEN = re.compile(r'\b(sorry|admit|native_decide|bv_decide|implemented_by)\b|^\s*axiom\s|\bunsafe\s|maxHeartbeats\s+0')
